@@ -109,7 +109,7 @@ def _memory_generate_verilog(name, memory, namespace, add_data_file):
         if port.we is not None:
             # Split Write Logic.
             for i in range(memory.width//port.we_granularity):
-                wbit = f"[{i}]" if memory.width != port.we_granularity else ""
+                wbit = f"[{i}]" if len(port.we) > 1 else ""
                 r += f"\tif ({_get_name(port.we)}{wbit})\n"
                 lbit =     i*port.we_granularity
                 hbit = (i+1)*port.we_granularity-1
